@@ -197,6 +197,12 @@ func (p *sparser) expr() *SExpr {
 			b := binder{Name: t.text, Type: "int"}
 			if p.peek().kind == "ident" {
 				b.Type = p.next().text
+				if b.Type == "map" && p.isOp("[") { // map[int]T
+					p.p++
+					k := p.next().text
+					p.expectOp("]")
+					b.Type = "map[" + k + "]" + p.next().text
+				}
 			}
 			bs = append(bs, b)
 			if p.isOp(",") {
